@@ -25,8 +25,14 @@ def gen_history(rng, maxlen):
         srcs = [x for x in known if x in SPECIES]
         dest = rng.choice(["S", "R"])
         if srcs and rng.chance(4, 5):
-            return ["createRule", dest, [rng.choice(srcs) for _ in range(rng.randint(1, 2))]]
-        return ["createRule", dest, [rng.choice(SPECIES[:3]) for _ in range(rng.randint(1, 2))]]
+            src = [rng.choice(srcs) for _ in range(rng.randint(1, 2))]
+        else:
+            src = [rng.choice(SPECIES[:3]) for _ in range(rng.randint(1, 2))]
+        if dest == "R" and rng.chance(1, 2):
+            # R reads the other rule's target; when R is declared before S it lags one rule pass behind, so running the
+            # rule list more (or less) often than once per pass changes the result
+            src = ["S"] + src[:1]
+        return ["createRule", dest, src]
 
     n = rng.randint(3, maxlen)
     for _ in range(n):
@@ -177,6 +183,13 @@ def history_case(ctx, ops):
                   parameters=[(p, v) for p, v in pvals.items() if not p.startswith("DummyVar_")],
                   rules=[("additive", {"equation": "%s = %s" % (op[1], " + ".join(op[2]))}) for op in rules],
                   initial_condition_dict=svals)
+    # the simulators run each declared rule once per pass: the interface built on the model as the history left it holds
+    # exactly the rules of the definition
+    nr = ModelCSimInterface(M).py_get_number_of_rules()
+    if nr != len(rules):
+        ctx.violation("history-dependence/rule-vector", "the simulation interface of the model reached through the history runs %d rule objects per pass, "
+                      "the definition has %d rules" % (nr, len(rules)), {"ops": ops, "interface_rules": nr, "declared_rules": len(rules)})
+        return
     T = np.linspace(0, 1.0, 6)
     seed = 1 + (len(ops) * 7919) % 100000
     # no explicit initialisation here: the model is used as the history left it (the entry point initialises when the
